@@ -190,7 +190,7 @@ func makeVarContainsFilter(src, varname string, pat *gogrep.Pattern) filterFunc 
 		}
 		params.gogrepSubState.CapturePreset = params.match.CaptureList()
 		matched := false
-		gogrep.Walk(root, func(n ast.Node) bool {
+		visit := func(n ast.Node) bool {
 			if matched {
 				return false
 			}
@@ -198,7 +198,24 @@ func makeVarContainsFilter(src, varname string, pat *gogrep.Pattern) filterFunc 
 				matched = true
 			})
 			return true
-		})
+		}
+		if partial, ok := root.(*gogrep.PartialNode); ok {
+			// A part of a statement (`range $x`, `for $k, $v := range $x`) is no AST node
+			// that can be walked: search the nodes of that statement that lie inside the part.
+			ast.Inspect(partial.X, func(n ast.Node) bool {
+				switch {
+				case n == nil || matched:
+					return false
+				case n.End() <= partial.Pos() || n.Pos() >= partial.End():
+					return false // Outside of the part
+				case n.Pos() < partial.Pos() || n.End() > partial.End():
+					return true // Only some of its children are inside
+				}
+				return visit(n)
+			})
+		} else {
+			gogrep.Walk(root, visit)
+		}
 		if matched {
 			return filterSuccess
 		}
